@@ -51,3 +51,15 @@ func init() {
 		Prepare:     hTest("props/cli", "^TestC24", hOpts{QShards: 8, TShards: 16, QTimeout: 8 * time.Minute, TTimeout: 60 * time.Minute, Tools: []string{"tl2gen", "tlgen"}}),
 	}
 }
+
+func init() {
+	specs["C14"] = &spec{
+		LevelText:   "rapid-generated TL1 schemas, unmodified or under one structured edit that may invalidate them (duplicate name, undefined type, forward mask reference, names differing only by case, bare recursion cycle, dropped template argument, field named like a generated method or Go keyword, same short name in two namespaces, function used as a type), crossed with generator options (--split-internal, --tl2WhiteList none/*/namespaces, --generateByteVersions none/*/namespaces, --generateRandomCode, --generateRPCCode, --checkLengthSanity) are given to the real tl2gen --language=go built from the working tree. Oracle: exit 0 => the output compiles with 'go build ./...' against /repo/pkg/basictl (and pkg/rpc); exit 1 => a message was printed and the output directory is empty; any panic trace, signal or other exit code is a violation, as is success with a 'will not compile' formatter message.",
+		LevelNote:   "Trusted: Go toolchain. One go build per accepted schema bounds the number of cases (48 quick / 1200 thorough).",
+		Technique:   "property-based testing (rapid): grammar-based + mutation-based schema generation through the real generator and compiler",
+		Rule:        "non-trivial iff the schema has >= 6 user combinators and built, or a semantic edit was applied; distinct by (schema, edit, options)",
+		Assumptions: []string{"TL2-native input files are exercised by the hand-written TL2 schema sets of the codegen checks, not generated here"},
+		Floors:      []floor{{"built", 0.25, ""}},
+		Prepare:     hTest("props/cli", "^TestC14", hOpts{QShards: 8, TShards: 8, QTimeout: 15 * time.Minute, TTimeout: 120 * time.Minute, Tools: []string{"tl2gen"}}),
+	}
+}
